@@ -80,7 +80,11 @@ class TableEntry (object):
     """
     Exact matches effectively have an "infinite" priority
     """
-    return self.priority if self.match.is_wildcarded else (1<<16) + 1
+    # Wildcard bits implied by the protocols the match leaves unspecified (see
+    # ofp_match._unwire_wildcards) do not make a match any less exact.
+    implied = self.match._unwire_wildcards(0)
+    exact = (self.match.wildcards & ~implied & OFPFW_ALL) == 0
+    return (1<<16) + 1 if exact else self.priority
 
   def is_matched_by (self, match, priority=None, strict=False, out_port=None):
     """
